@@ -35,3 +35,19 @@ if not logger.handlers:
 
 def repo_file(rel):
     return os.path.join(REPO, rel)
+
+
+class debug_level:
+    """run a block with the package logger at DEBUG (null handler: records are formatted lazily, but every
+    `logger.debug(f"...")` argument and every `isEnabledFor(DEBUG)` branch of the code under test is executed)."""
+    def __init__(self, on=True):
+        self.on = on
+
+    def __enter__(self):
+        if self.on:
+            logger.setLevel(logging.DEBUG)
+        return self
+
+    def __exit__(self, *a):
+        logger.setLevel(logging.ERROR)
+        return False
